@@ -92,7 +92,7 @@ def is_time_comparator(F, v):
     return False
 
 
-def sort_sites(F, fn):
+def sort_sites(F, fn, _depth=0):
     """blocks in fn that sort map.hit_objects by time: {bb: description}"""
     out = {}
     P = prov.prov_of(fn)
@@ -114,6 +114,20 @@ def sort_sites(F, fn):
                         ok = True
             if ok:
                 out[bi] = 'TandemSorter::new_stable(&hit_objects, total_cmp on start_time).sort'
+    # a private helper of the converter that always leaves hit_objects sorted (`replace_hit_objects(map, new)`: install, then sort)
+    if _depth < 1:
+        for bi, t in fn.calls():
+            if bi in out or not t['func'].get('local'):
+                continue
+            h = F.fn(callee_path(t))
+            if h is None or h is fn or not any('Beatmap' in (i.get('s') or '') and i.get('k') == 'refmut' for i in h.j.get('inputs', [])):
+                continue
+            hs = sort_sites(F, h, _depth + 1)
+            if not hs or not h.cfg.must_pass_through(0, set(hs)):
+                continue
+            hw = {b for _, _, b, _, _ in vec_mut_uses(h, 'hit_objects') if b not in hs} | {b for b, _, whole in elem_writes(h, 'hit_objects') if whole}
+            if all(h.cfg.must_pass_through(w, set(hs) - {w}) for w in hw):
+                out[bi] = '%s (always ends with %s)' % (h.path.split('::')[-1], sorted(set(hs.values()))[0])
     return out
 
 
@@ -185,14 +199,26 @@ def run(ctx):
                         bad='hit_objects.%s and hit_sounds.%s use different positions / sorters' % (name, name))
         ctx.floor('C19-R2', npairs, 3, 'lock-step pairs on hit_objects/hit_sounds')
         # temporaries: Vec<HitObject> and Vec<HitSoundType> locals pushed in pairs
-        push = {}
-        for bi, t in f.calls():
-            if t['func'].get('name') == 'push' and t['args'] and t['args'][0]['k'] in ('copy', 'move'):
-                ty = f.locals[t['args'][0]['p']['l']]['s']
-                push.setdefault(ty, []).append(bi)
-        objs = [b for ty, bs in push.items() if 'HitObject>' in ty for b in bs]
-        snds = [b for ty, bs in push.items() if 'HitSoundType>' in ty for b in bs]
-        paired = len(objs) == len(snds) and all(any((f.cfg.dominates(a, b) and f.cfg.postdominates(b, a)) or (f.cfg.dominates(b, a) and f.cfg.postdominates(a, b)) for b in snds) for a in objs)
+        def push_pairs(g):
+            push = {}
+            for bi, t in g.calls():
+                if t['func'].get('name') == 'push' and t['args'] and t['args'][0]['k'] in ('copy', 'move'):
+                    ty = g.locals[t['args'][0]['p']['l']]['s']
+                    push.setdefault(ty, []).append(bi)
+            objs_ = [b for ty, bs in push.items() if 'HitObject>' in ty for b in bs]
+            snds_ = [b for ty, bs in push.items() if 'HitSoundType>' in ty for b in bs]
+            ok_ = len(objs_) == len(snds_) and all(any((g.cfg.dominates(a, b) and g.cfg.postdominates(b, a)) or (g.cfg.dominates(b, a) and g.cfg.postdominates(a, b)) for b in snds_) for a in objs_)
+            return objs_, snds_, ok_
+        # the pushes may sit in a private helper of the converter that receives both temporaries
+        cands = [f] + [h for h in (F.fn(callee_path(t)) for _, t in f.calls() if t['func'].get('local')) if h is not None and h.path.startswith('taiko::convert::')]
+        objs, snds, paired = [], [], True
+        for g in cands:
+            o_, s_, ok_ = push_pairs(g)
+            if o_ or s_:
+                ctx.saw(g)
+                objs += o_
+                snds += s_
+                paired = paired and ok_
         ctx.require(bool(objs) and paired, 'C19-R2', 'taiko:push-pair', 'every new object pushed is accompanied by exactly one pushed sound on the same paths (%d pair(s))' % len(objs),
                     f.where(), bad='new_objects.push / new_sounds.push are not paired: %d object pushes, %d sound pushes' % (len(objs), len(snds)))
         ew = elem_writes(f, 'hit_objects')
@@ -231,7 +257,8 @@ def run(ctx):
         bad = [w for w in sorted(writes) if not f.cfg.must_pass_through(w, set(sorts) - {w}) and
                not (w in sorts)]
         # a write in the same block as nothing else: must be followed by a sort block on every path
-        ctx.require(not bad and bool(writes), 'C19-R3', path, 'every path from a write of hit_objects (%d site(s)) to the return passes %s' % (len(writes), sorted(set(sorts.values()))),
+        via_helper = any('always ends with' in d for d in sorts.values())
+        ctx.require(not bad and (bool(writes) or via_helper), 'C19-R3', path, 'every path from a write of hit_objects (%d site(s)) to the return passes %s' % (len(writes), sorted(set(sorts.values()))),
                     f.where(), bad='%s: hit_objects is written in block(s) %s and a path to the return skips the time sort: the converted map may be out of order' % (path, bad))
     ctx.floor('C19-R3', n3, 4, 'functions rewriting hit_objects')
     # ---- R4
